@@ -314,13 +314,11 @@ def replay(drv, root, item, reps=1):
                 scripts = [lines]
                 ats = [list(range(len(lines)))]
                 hists = [P["hist"][0]]
-                tids = [P["tids"][0]]
             else:
                 # ovni_proc_init / _fini around the threads (ProcAtStart)
                 scripts = [["proc_init %s %s %s" % (pa["app"], pa["loom"], pa["pid"]), "spawn", "fini"]]
                 ats = [[]]
                 hists = [[]]
-                tids = [None]
                 for k in range(nt):
                     lines, at = [], []
                     for e in P["hist"][k]:
@@ -334,7 +332,6 @@ def replay(drv, root, item, reps=1):
                     scripts.append(lines)
                     ats.append(at)
                     hists.append(P["hist"][k])
-                    tids.append(P["tids"][k])
             paths = []
             for k, lines in enumerate(scripts):
                 sp = os.path.join(d, "script%d" % k)
